@@ -23,8 +23,8 @@ CLAIMS = {
  "C05": ("property-based testing: complete enumeration of all 2^24 P8 triples + proptest triple and tie-directed generators (cancellation-directed c) against the exact dyadic reference oracle",
          "mul_add, mul_sub and sub_product of every generated/enumerated triple compared bit-for-bit with the exact a*b+-c rounded once. P8 decided completely; P16/P32 by generation directed at cancellation, ties and extreme regimes.",
          "DESIGN.md section 6, C05"),
- "C06": ("property-based testing: complete enumeration (P8, P16; P32 in thorough, 1/16 strided in quick) + proptest inputs around perfect squares and squared thresholds; oracle decides sqrt by exact comparison with t^2",
-         "sqrt of every pattern compared with the posit rounding of the exact root. Complete for P8/P16, and for all 2^32 P32 patterns in the thorough tier.",
+ "C06": ("property-based testing by complete enumeration (all patterns of P8, P16 and P32 in both tiers) + proptest inputs around perfect squares and squared thresholds; oracle decides sqrt by exact comparison with t^2",
+         "sqrt of every pattern compared with the posit rounding of the exact root. Complete for P8, P16 and all 2^32 P32 patterns in both tiers.",
          "DESIGN.md section 6, C06"),
  "C07": ("property-based testing: complete enumeration of narrow integer types and of P8/P16 (all 2^32 i32/u32 values and P32 patterns in thorough) + proptest int64 generator with threshold-directed values; exact oracle",
          "from_<int> compared with the posit rounding of the integer's exact value; to_i32/u32/i64/u64 compared with round-half-even clamped to the type. Complete where the domain is <= 2^32 (thorough), generated for 64-bit integers.",
@@ -47,7 +47,7 @@ CLAIMS = {
  "C13": ("property-based testing: complete enumeration for small widths (all pairs N <= 8, all triples N <= 6) + proptest triples (bits x relation, tie-directed, result-directed) for every N in 2..=32 and both exponent sizes, exact dyadic oracle at width N; cross-type differential PxE2<32> == P32E2, PxE1<16> == P16E1",
          "+ - * / (operator and op-assign), mul_add, mul_sub, sub_product, sqrt, round of PxE1<N>/PxE2<N> compared bit-for-bit (incl. zero low bits) with the exact result rounded to an N-bit posit for all 31 widths and both families; widths up to 8 decided completely.",
          "DESIGN.md section 6, C13"),
- "C14": ("property-based testing: complete enumeration of P8/P16 sources and of generic sources up to N = 12, proptest sources with target-threshold lattices for every N in 2..=32, both families, 341 (M,N) width pairs for generic<->generic, quire histories for Q32E2 -> PxE2<N>; exact oracle",
+ "C14": ("property-based testing: complete enumeration of P8/P16 sources and of generic sources up to N = 12, proptest sources with target-threshold lattices for every N in 2..=32, both families, all 961 (M,N) width pairs for generic<->generic, quire histories for Q32E2 -> PxE2<N>; exact oracle",
          "Every conversion to and from PxE1<N>/PxE2<N> (floats, fixed-width posits, integers, other generic widths / exponent sizes, Q32E2) through inherent and From spellings compared with exact-or-correctly-rounded expectations.",
          "DESIGN.md section 6, C14"),
  "C16": ("differential property-based testing between two builds of the same sources (overflow-checked vs plain optimised, worker process) + totality under panic capture and a watchdog; proptest inputs with specials for 1799 registered operations",
@@ -86,7 +86,7 @@ for p in props:
         "engine": "vcheck",
         "level_claimed": {"category": "exploration", "text": text, "design_ref": ref},
         "level_note": NOTE,
-        "technique": tech,
+        "technique": tech + ("" if pid == "C16" else "; thorough tier adds a coverage-guided libFuzzer campaign (cargo-fuzz target engine/fuzz, 16 x 1.5M runs) over the property's operation table with the same oracle inside the target"),
     })
 hooks_commits = []
 manifest = {
@@ -100,7 +100,7 @@ manifest = {
         "add_only": True,
     },
     "engines": [{"name": "vcheck", "path": "/verif/engine", "serves_properties": [c["property_id"] for c in checks],
-                 "kind_free_text": "Rust binary built twice from the same sources (overflow-checked and plain optimised profile); proptest TestRunner-driven generators with fixed seeds derived from VERIF_SEED, rayon-parallel complete enumerations, exact dyadic reference model + independent fast posit encoder as oracles"}],
+                 "kind_free_text": "Rust binary built twice from the same sources (overflow-checked and plain optimised profile); proptest TestRunner-driven generators with fixed seeds derived from VERIF_SEED, rayon-parallel complete enumerations, exact dyadic reference model + independent fast posit encoder as oracles; thorough tiers additionally drive a libFuzzer target (engine/fuzz, built with cargo +nightly fuzz) compiled from the same oracle sources"}],
     "checks": checks,
     "notes": "exit codes: 0 held, 1 VIOLATION line(s), 2 inconclusive (build / oracle self-test / harness error). Known findings: /verif/known_findings.json.",
     "not_applicable": [{"property_id": p["id"], "reason": UNCLAIMED_REASON} for p in props if p["id"] not in CLAIMS],
